@@ -74,7 +74,7 @@ def run(ctx):
         sizes2, depth2 = "0,32752,65520", 7
     else:
         sizes, depth, deadline = SIZES_THOROUGH, 6, ctx["deadline"] or 1800
-        sizes2, depth2 = "0,16,17,32752,65520", 8
+        sizes2, depth2 = "0,16,32752,65520", 8
     seen, transitions, completed, res, samples = explore(exe, env, sizes, depth, deadline * 0.5, t0)
     # second exploration: narrow alphabet, deeper
     seen2, transitions2, completed2, res2, samples2 = explore(exe, env, sizes2, depth2, deadline, t0)
